@@ -137,29 +137,28 @@ func present(l shape.Layer, p string) bool {
 // has a name of its own in this format, the document also carries the field's
 // dials name as a key (with that value).  No field answers to that key in this
 // format, so the leaf stays unset.
-func buildDoc(T reflect.Type, l shape.Layer, decoy map[string]uint64, format string, setsAsLists bool, pk pick) *dnode {
+func buildDoc(T reflect.Type, l shape.Layer, ex docExtras, format string, setsAsLists bool, pk pick) *dnode {
 	root := &dnode{kind: 'm', isStruct: true}
-	buildStruct(root, T, nil, l, decoy, format, setsAsLists, pk)
+	buildStruct(root, T, nil, l, ex, format, setsAsLists, pk)
 	return root
 }
 
-func buildStruct(n *dnode, t reflect.Type, prefix []string, l shape.Layer, decoy map[string]uint64, format string, setsAsLists bool, pk pick) {
+func buildStruct(n *dnode, t reflect.Type, prefix []string, l shape.Layer, ex docExtras, format string, setsAsLists bool, pk pick) {
 	for i := 0; i < t.NumField(); i++ {
 		sf := t.Field(i)
 		names := append(append([]string{}, prefix...), sf.Name)
 		path := strings.Join(names, ".")
 		switch shape.Classify(sf) {
 		case shape.ClassLeaf:
-			seed := l.Set[path]
-			if seed == 0 {
-				if ds := decoy[path]; ds != 0 && keyFor(sf, format) != sf.Tag.Get("dials") {
+			v, ok := leafValue(sf.Type, l.Set[path], ex.Sets[path])
+			if !ok {
+				if ds := ex.Decoy[path]; ds != 0 && keyFor(sf, format) != sf.Tag.Get("dials") {
 					k := valueNode(shape.MakeValue(sf.Type, ds, shape.ValueOpts{Plain: true}), format, setsAsLists, pk)
 					k.key = sf.Tag.Get("dials") // path stays empty: not a value of the config
 					n.kids = append(n.kids, k)
 				}
 				continue
 			}
-			v := shape.MakeValue(sf.Type, seed, shape.ValueOpts{Plain: true})
 			k := valueNode(v, format, setsAsLists, pk)
 			k.key, k.path, k.typ = keyFor(sf, format), path, sf.Type
 			n.kids = append(n.kids, k)
@@ -176,14 +175,14 @@ func buildStruct(n *dnode, t reflect.Type, prefix []string, l shape.Layer, decoy
 				ek, promoted := embeddedKey(sf, format)
 				if promoted {
 					sub := &dnode{kind: 'm', isStruct: true}
-					buildStruct(sub, st, names, l, decoy, format, setsAsLists, pk)
+					buildStruct(sub, st, names, l, ex, format, setsAsLists, pk)
 					n.kids = append(n.kids, sub.kids...)
 					continue
 				}
 				key = ek
 			}
 			k := &dnode{kind: 'm', isStruct: true, key: key, path: path, typ: sf.Type}
-			buildStruct(k, st, names, l, decoy, format, setsAsLists, pk)
+			buildStruct(k, st, names, l, ex, format, setsAsLists, pk)
 			n.kids = append(n.kids, k)
 		}
 	}
@@ -255,6 +254,25 @@ func structureNode(v reflect.Value, format string, setsAsLists bool, pk pick) *d
 		return n
 	case reflect.Map:
 		keys := make([]string, 0, v.Len())
+		if v.Type().Key().Kind() == reflect.Int {
+			// a set of integers, as a list (only ever under the wrapper)
+			var is []int64
+			for _, k := range v.MapKeys() {
+				is = append(is, k.Int())
+			}
+			sort.Slice(is, func(a, b int) bool { return is[a] < is[b] })
+			if len(is) > 1 && pk("set_order", 2) == 1 {
+				sort.Slice(is, func(a, b int) bool { return is[a] > is[b] })
+			}
+			n := &dnode{kind: 'l'}
+			for _, i := range is {
+				n.kids = append(n.kids, &dnode{kind: 's', val: i})
+			}
+			if len(is) > 0 && pk("set_dup", 3) == 0 {
+				n.kids = append(n.kids, &dnode{kind: 's', val: is[0]})
+			}
+			return n
+		}
 		for _, k := range v.MapKeys() {
 			keys = append(keys, k.String())
 		}
@@ -287,6 +305,58 @@ func structureNode(v reflect.Value, format string, setsAsLists bool, pk pick) *d
 		return n
 	}
 	panic(fmt.Sprintf("valueNode: unsupported type %s", v.Type()))
+}
+
+// docExtras is what a document holds besides the layer's seeded values.
+type docExtras struct {
+	Decoy map[string]uint64
+	Sets  map[string]SetEdit
+}
+
+// SetEdit changes the members of a set-typed leaf (only used with the
+// set-to-slice wrapper, where sets are written as lists).
+type SetEdit struct {
+	// Zero adds the zero value of the key type ("" for map[string]struct{})
+	// to the seeded members; Only makes the set the singleton {zero}.
+	Zero bool `json:"zero,omitempty"`
+	Only bool `json:"only,omitempty"`
+	// Ints are the members of a map[int]struct{} leaf; such a leaf is present
+	// in the document iff Ints is non-nil (it never has a seed: the value
+	// builder of the harness makes string keys only).
+	Ints []int64 `json:"ints,omitempty"`
+	// IntsPresent distinguishes the empty list from an absent key.
+	IntsPresent bool `json:"ints_present,omitempty"`
+}
+
+var intSetT = reflect.TypeOf(map[int]struct{}(nil))
+
+// leafValue is the value a document gives a leaf, if any.
+func leafValue(t reflect.Type, seed uint64, e SetEdit) (reflect.Value, bool) {
+	if t == intSetT {
+		if !e.IntsPresent {
+			return reflect.Value{}, false
+		}
+		m := map[int]struct{}{}
+		for _, i := range e.Ints {
+			m[int(i)] = struct{}{}
+		}
+		return reflect.ValueOf(m), true
+	}
+	if seed == 0 {
+		return reflect.Value{}, false
+	}
+	v := shape.MakeValue(t, seed, shape.ValueOpts{Plain: true})
+	if isSet(t) && t.Key().Kind() == reflect.String && (e.Zero || e.Only) {
+		m := reflect.MakeMap(t)
+		if !e.Only {
+			for _, k := range v.MapKeys() {
+				m.SetMapIndex(k, v.MapIndex(k))
+			}
+		}
+		m.SetMapIndex(reflect.Zero(t.Key()), reflect.ValueOf(struct{}{}))
+		return m, true
+	}
+	return v, true
 }
 
 // find returns the node standing for Go field path p.
